@@ -627,7 +627,7 @@ package psatoken
 // ---------------------------------------------------------------- evidence.go
 
 //@ func (*Evidence).SetClaims
-//@   property C08 C19 C05
+//@   property C08 C19 C05 C03
 //@   requires e != nil && claims != nil
 //@   ghostset bound(e) = false when ret == nil
 //@   ensures[inv] evInv(e) || (ret != nil && !old(evInv(e)))
@@ -1079,16 +1079,16 @@ package psatoken
 
 // ---------------------------------------------------------------- bounded audits of the assumed codec contracts (real libraries, end to end)
 
-//@ bounded[C09] cbor-round-trip : 32 valid claims-sets (both profiles x 16 optional-claim / hash-size / 1..4-component / text / client-id combinations) and 32 sets damaged in one claim :: boundedCBORRoundTrip()
-//@ bounded[C10] wire-format : the same 32 valid claims-sets, output parsed by an independent definite-length CBOR reader :: boundedWireFormat()
-//@ bounded[C04] acceptance : tokens assembled by an independent CBOR writer, one claim at a time through every value class (absent, null, 12 byte-string lengths, wrong major types, out-of-width integers, float), both profiles, unknown extra key, rotated key order, indefinite / trailing / unknown-profile tokens; verdict compared with an independent oracle :: boundedAcceptance()
-//@ bounded[C12] json-round-trip : the same 32 valid claims-sets through JSON and through CBOR->JSON->CBOR; member names, base64, no null members :: boundedJSONRoundTrip()
+//@ bounded[C09] cbor-round-trip : 32 valid claims-sets (both profiles x 16 optional-claim / hash-size / 1..4-component / text / client-id combinations) and 32 sets damaged in one claim; thorough tier: 192 valid claims-sets :: boundedCBORRoundTrip()
+//@ bounded[C10] wire-format : the same 32 valid claims-sets, output parsed by an independent definite-length CBOR reader; thorough tier: 192 valid claims-sets :: boundedWireFormat()
+//@ bounded[C04] acceptance : tokens assembled by an independent CBOR writer, one claim at a time through every value class (absent, null, 12 byte-string lengths, wrong major types, out-of-width integers, float), both profiles, unknown extra key, rotated key order, indefinite / trailing / unknown-profile tokens; verdict compared with an independent oracle; thorough tier: every byte-string length 0..70 :: boundedAcceptance()
+//@ bounded[C12] json-round-trip : the same 32 valid claims-sets through JSON and through CBOR->JSON->CBOR; member names, base64, no null members; thorough tier: 192 valid claims-sets :: boundedJSONRoundTrip()
 
 // ---------------------------------------------------------------- bounded audits of the assumed go-cose / crypto contracts and of library thread-safety
 
-//@ bounded[C02,C03] tamper : 5 pairs of ES256 tokens over the valid claims-sets: every single-bit flip, every truncation, payload / signature / protected-header splices between two tokens, arbitrary signature bytes, the other key :: boundedTamper()
+//@ bounded[C02,C03] tamper : 5 pairs of ES256 tokens over the valid claims-sets: every single-bit flip, every truncation, payload / signature / protected-header splices between two tokens, arbitrary signature bytes, the other key; thorough tier: 48 ES256, 4 ES384 and 4 ES512 token pairs :: boundedTamper()
 //@ bounded[C20] envelope : envelopes from an independent CBOR writer: tags 0..30 and none, array lengths 0..6, each of the four elements replaced by 8 other item types, wrapped / null / array / empty / integer payloads, trailing bytes :: boundedEnvelope()
-//@ bounded[C19,C03] histories : all operation sequences of length <= 4 over {Sign ok, Sign with failing signer, Sign with empty signature, ValidateAndSign on invalid claims, UnmarshalCOSE genuine, UnmarshalCOSE garbage} on one Evidence (1 554 sequences) :: boundedHistories()
+//@ bounded[C19,C03] histories : all operation sequences of length <= 4 over {Sign ok, Sign with failing signer, Sign with empty signature, ValidateAndSign on invalid claims, UnmarshalCOSE genuine, UnmarshalCOSE garbage} on one Evidence (1 554 sequences); thorough tier: length <= 5 (9 330 sequences) :: boundedHistories()
 //@ bounded[C17] race-audit : 16 goroutines x 20 iterations of encode / getters / validate / decode / verify / create / sign on shared and private objects under the race detector, results compared with a sequential run :: raceAudit()
 
 // ---------------------------------------------------------------- ghost lemma functions (verif_lemmas.go, build tag verif)
